@@ -181,6 +181,17 @@ pub fn encode_iter_hint(elem: &Ty, xs: &[Val], lo: usize, hi: Option<usize>) -> 
     Ok(ctx.into_output())
 }
 
+/// as `encode_iter_hint`, also returning the items as the serialized instances present them
+pub fn encode_iter_hint_written(elem: &Ty, xs: &[Val], lo: usize, hi: Option<usize>) -> (Result<Vec<u8>, ErrInfo>, Vec<Val>) {
+    live::reset_tls();
+    let items: Vec<Live> = xs.iter().map(|x| Live::from_val(elem, x)).collect();
+    let written = items.iter().map(|l| l.to_val()).collect();
+    let mut ctx = desert::SerializationContext::new(Vec::new());
+    let mut it = Inexact(items.iter(), lo, hi);
+    let r = desert::serialize_iterator(&mut it, &mut ctx).map_err(|e| errinfo(&e));
+    (r.map(|_| ctx.into_output()), written)
+}
+
 /// iterator adaptor that admits it does not know its length
 struct Inexact<I>(I, usize, Option<usize>);
 impl<I: Iterator> Iterator for Inexact<I> {
